@@ -11,6 +11,9 @@ import hashlib
 import io
 import itertools
 import json
+import os
+import shutil
+import tempfile
 import random
 
 import backends as B
@@ -189,10 +192,31 @@ def byte_cases(tier, rnd):
     return cases
 
 
-ENCODINGS = [("utf-8", None), ("utf-16", None), ("latin-1", "replace"), ("ascii", "replace"), ("ascii", "ignore"),
+ENCODINGS = [("utf-8", None), ("utf-16", None), ("utf-8-sig", None), ("utf-32", None), ("latin-1", "replace"), ("ascii", "replace"), ("ascii", "ignore"),
              ("ascii", "strict"), ("utf-8", "strict")]
 NEWLINES = [None, "", "\n", "\r", "\r\n"]
 TEXTS = [u"", u"plain", u"line1\nline2\n", u"crlf\r\nmixed\rend", u"caf\xe9 中\U0001F600", u"\n\n", u"tab\tsp ", u"x" * 5000 + u"\n"]
+
+
+BOM_ENCODINGS = ("utf-16", "utf-32", "utf-8-sig")
+
+
+def io_append_reference(text, enc, errs):
+    """Bytes a real io file holds after open('w').write(first half) and open('a').write(second half)."""
+    d = tempfile.mkdtemp(prefix="pyfs2verif_c02_")
+    p = os.path.join(d, "f")
+    try:
+        try:
+            with io.open(p, "w", encoding=enc, errors=errs, newline="") as f:
+                f.write(text[: len(text) // 2])
+            with io.open(p, "a", encoding=enc, errors=errs, newline="") as f:
+                f.write(text[len(text) // 2:])
+        except Exception as e:
+            return ("raises", type(e).__name__)
+        with open(p, "rb") as f:
+            return f.read()
+    finally:
+        shutil.rmtree(d, ignore_errors=True)
 
 
 def text_reference(text, enc, errs, nl):
@@ -520,9 +544,11 @@ def run(report):
                     got_bytes = fsx.readbytes("t2")
                 except Exception as e:
                     got_bytes = ("raises", type(e).__name__)
-                if enc == "utf-16":
-                    pass            # a second BOM is written by the append: CPython does the same, not compared
-                elif got_bytes != ref_bytes:
+                if enc in BOM_ENCODINGS or text == u"":
+                    # BOM encodings: what an append writes depends on whether the file is empty (io asks tell()):
+                    # the reference is a REAL io file written the same way (write half, append half)
+                    ref_bytes = io_append_reference(text, enc, errs)
+                if got_bytes != ref_bytes:
                     bad.append(("text not stored as io.TextIOWrapper would", dict(backend=bc.name, encoding=enc, errors=errs,
                                                                                newline="", text=text[:40], via="writetext+appendtext"),
                                 repr(got_bytes)[:120], repr(ref_bytes)[:120]))
